@@ -342,6 +342,8 @@ class Tr:
             if not op:
                 raise Unsupported(f"binop {type(e.op).__name__}")
             l, r = self.expr(e.left, env, k), self.expr(e.right, env, k)
+            if os.environ.get("PYEXPR_SWAP") and op in ("add", "mul"):
+                l, r = r, l     # robustness self-test only (tools/robustness.sh): translate as if every commutative operand pair were swapped in the source
             if op == "pow" and r[0] == "lit" and r[2] == 0 and abs(r[1]) <= 12:
                 return ("powi", l, r[1])
             return (op, l, r)
@@ -458,21 +460,45 @@ class Tr:
 
 
 # ---------- normalisation of condition trees into E (conditions only appear inside ite)
+def canon(t):
+    """canonical operand order of the commutative binary nodes (`a*b` and `b*a`, `a+b` and `b+a` give the same term): an exactly
+    semantics-preserving normalisation, over the reals and in IEEE arithmetic alike, which makes the generated terms — and hence
+    every proof about them — insensitive to operand order in the Python source.  No re-association, no constant folding."""
+    if not isinstance(t, tuple):
+        return t
+    t = (t[0],) + tuple(canon(x) if isinstance(x, tuple) else x for x in t[1:])
+    if os.environ.get("PYEXPR_REASSOC") and t[0] in ("add", "mul") and len(t) == 3 and isinstance(t[1], tuple) and t[1][0] == t[0] and len(t[1]) == 3:
+        # robustness self-test only (tools/robustness.sh reassoc): translate `(a*b)*c` as if the source said `a*(b*c)`
+        t = canon((t[0], t[1][1], (t[0], t[1][2], t[2])))
+    if t[0] in ("add", "mul") and len(t) == 3 and _key(t[2]) < _key(t[1]):
+        return (t[0], t[2], t[1])
+    return t
+
+
+def _key(t):
+    rank = {"lit": 0, "pi": 1, "var": 2}.get(t[0], 3) if isinstance(t, tuple) else 9
+    return (rank, json.dumps(t, sort_keys=True, default=str))
+
+
 def lower(t):
+    return canon(_lower(t))
+
+
+def _lower(t):
     """lower boolean structure: ite(and(c1,c2),a,b) -> ite(c1, ite(c2,a,b), b) etc., so that E needs only `cmp` tests"""
     if not isinstance(t, tuple):
         return t
     if t[0] == "ite":
-        c, a, b = t[1], lower(t[2]), lower(t[3])
+        c, a, b = t[1], _lower(t[2]), _lower(t[3])
         return lower_ite(c, a, b)
-    return (t[0],) + tuple(lower(x) if isinstance(x, tuple) else x for x in t[1:])
+    return (t[0],) + tuple(_lower(x) if isinstance(x, tuple) else x for x in t[1:])
 
 
 def lower_ite(c, a, b):
     if c[0] == "const":
         return a if c[1] else b
     if c[0] == "cmp":
-        return ("ite", ("cmp", c[1], lower(c[2]), lower(c[3])), a, b)
+        return ("ite", ("cmp", c[1], _lower(c[2]), _lower(c[3])), a, b)
     if c[0] == "and":
         out = a
         for ci in reversed(c[1:]):
